@@ -100,7 +100,9 @@ class StmtMixin:
         if isinstance(tgt, ast.Name):
             old = s.env.get(tgt.id)
             # keep declared static type (e.g. Optional[int] variables assigned an int)
-            if old is not None and not old.is_py and old.ty.kind != "none" and old.ty != v.ty and not (old.meta and old.meta.get("empty")):
+            if old is not None and not old.is_py and old.ty.kind == "opt" and old.ty != v.ty \
+                    and (v.ty.kind == "none" or v.ty == old.ty.args[0] or v.is_py):
+                # a variable that held Optional[T] keeps that static type when assigned a T or None
                 try:
                     v = self.coerce(v, old.ty)
                 except Unsupported:
@@ -600,6 +602,12 @@ class StmtMixin:
             raise Unsupported("loop contract over dict.values()/enumerate")
         kind = it.ty.kind
         entry_ghost = {}
+        rev_of = None
+        if getattr(spec, "original_order", False):
+            if not (it.meta and it.meta.get("reversed_of") is not None):
+                raise Unsupported("original_order loop contract on a loop that does not iterate reversed(...)")
+            rev_of = it.meta["reversed_of"]
+            it = rev_of
         if kind in ("seq", "str"):
             idx0 = Val(INT, z3.IntVal(0))
             def extra_at(i, x=None):
@@ -615,7 +623,7 @@ class StmtMixin:
             i = z3.Int(fresh_name("i"))
             body_st.assume(z3.And(0 <= i, i < z3.Length(it.t)), f"loop{ordn}:iter")
             body_st.assume(self.eval_inv(body_st, spec, extra_at(Val(INT, i))))
-            x = self.seq_nth(it, i)
+            x = self.seq_nth(it, i) if rev_of is None else self.seq_nth(it, z3.Length(it.t) - 1 - i)
             self.assign_target(body_st, n.target, x)
             body_st.env[f"_i{ordn}"] = Val(INT, i)
             exits = []
